@@ -72,7 +72,20 @@ let handle ws = match ws with
             Printf.sprintf "res=err:s:-:HeaderTooBig tx=%s log=~" (if N.leb (n_of_int 42) (spec_limit ps) then "+" else "-")
           | "srv", _ -> "res=err:s:-:HeaderTooBig tx=- log=~"
           | _, _ -> "res=err:s:-:HeaderTooBig tx=- log=~")) in
-    obs_s o ^ " | " ^ spec
+    (* `.after`: one more minimal message on the next stream, through the primary handle *)
+    let min_bs = bytes_of_hex (if role = "srv" then "0000d1d7500161c1" else "0000d9") in
+    let min_size = n_of_int (if role = "srv" then 167 else 42) in
+    let add_next str nxt =
+      if not (has "after") then str else
+      (match String.index_opt str ' ' with
+       | Some i -> String.sub str 0 i ^ " next=" ^ nxt ^ String.sub str i (String.length str - i)
+       | None -> str) in
+    let next_m =
+      let o2 = if role = "srv" then server_recv_request (own_at HServerRequest configured ps) ps min_bs
+               else client_recv_response (own_at (HClient (None, false)) configured ps) ps min_bs in
+      res_s o2.ro_result in
+    let next_s = if N.leb min_size configured then "ok" else "err:s:-:HeaderTooBig" in
+    add_next (obs_s o) next_m ^ " | " ^ (if spec = "**" then spec else add_next spec next_s)
   | ["lim.tx"; role; own; p; ops] ->
     let rflags = String.split_on_char '.' role in
     let role = List.hd rflags in
